@@ -883,6 +883,7 @@ func (obj *Package) GetFunc(name string) (fi *FuncInfo) {
 
 // DefLambda registers a named lambda function. This is called by defun.
 func (obj *Package) DefLambda(name string, lam *Lambda, fc func(args List) Object, kind Symbol) (fi *FuncInfo) {
+	var exported *FuncInfo
 	obj.mu.Lock()
 	if xlam := obj.lambdas[name]; xlam != nil {
 		xlam.Doc = lam.Doc
@@ -909,15 +910,33 @@ func (obj *Package) DefLambda(name string, lam *Lambda, fc func(args List) Objec
 		if vv := obj.vars[name]; vv != nil && Unbound == vv.Val && vv.Export {
 			fi.Export = true
 			delete(obj.vars, name)
+			exported = &fi
 		}
 	}
 	obj.mu.Unlock()
+	if exported != nil {
+		// The name was exported before the function existed, the packages
+		// that use this one see it from now on just as with Export().
+		obj.shareFunc(name, exported)
+	}
 	if 0 < len(name) && !strings.EqualFold(name, "lambda") {
 		for _, h := range defunHooks {
 			h.fun(obj, name)
 		}
 	}
 	return
+}
+
+// shareFunc makes an exported function visible in the packages that use this
+// one unless they have a function of that name already.
+func (obj *Package) shareFunc(name string, fi *FuncInfo) {
+	for _, u := range obj.Users {
+		u.mu.Lock()
+		if xf := u.funcs[name]; xf == nil {
+			u.funcs[name] = fi
+		}
+		u.mu.Unlock()
+	}
 }
 
 // RegisterClass registers a class in the package
